@@ -254,9 +254,30 @@ func (m *model) sameSnapshotRow(id imap.InternalMessageID, rid imap.MessageID, u
 // ---------------------------------------------------------------------------------------------------------------------
 // outcome judging
 
+// panicErr is what safely turns a panic of the code under test into: no argument makes a panic acceptable.
+type panicErr struct{ v any }
+
+func (p *panicErr) Error() string { return fmt.Sprintf("PANIC: %v", p.v) }
+
+// safely runs one call of the implementation under test (never code that draws from rapid: rapid uses panics itself).
+func safely[T any](f func() (T, error)) (res T, err error) {
+	defer func() {
+		if r := recover(); r != nil {
+			err = &panicErr{r}
+		}
+	}()
+
+	return f()
+}
+
 // judge decides on the error of a call given the model's expectation. It returns (violation, proceed): proceed=false
 // means the call failed legitimately (the caller must not compare results; a write must abort its transaction).
 func judge(what string, exp expect, err error) (error, bool) {
+	var pe *panicErr
+	if errors.As(err, &pe) {
+		return fmt.Errorf("%s: the call panicked: %v", what, pe.v), false
+	}
+
 	switch exp {
 	case expOK:
 		if err != nil {
@@ -810,7 +831,11 @@ func (s *sut) fullScan(ctx context.Context, ro db.ReadOnly, sampleMsgs int) erro
 func (s *sut) scanViaRead(sampleMsgs int) error {
 	ctx := context.Background()
 
-	return s.client.Read(ctx, func(ctx context.Context, ro db.ReadOnly) error {
-		return s.fullScan(ctx, ro, sampleMsgs)
+	_, err := safely(func() (none, error) {
+		return none{}, s.client.Read(ctx, func(ctx context.Context, ro db.ReadOnly) error {
+			return s.fullScan(ctx, ro, sampleMsgs)
+		})
 	})
+
+	return err
 }
